@@ -221,8 +221,9 @@ fn main() {
             match what.as_str() {
                 "determinism" => std::process::exit(check::cmd_selftest_determinism(runs, seed)),
                 "probes" => std::process::exit(check::cmd_selftest_probes(seed)),
+                "replayfuzz" => std::process::exit(check::cmd_selftest_replayfuzz(runs.max(1), seed)),
                 _ => {
-                    eprintln!("usage: simctl selftest determinism [--runs N] | probes");
+                    eprintln!("usage: simctl selftest determinism [--runs N] | probes | replayfuzz [--runs N]");
                     std::process::exit(2);
                 }
             }
